@@ -436,14 +436,14 @@ def _rc_class():
                     self.inputs.add(name=n)
                     ir[n] = [rule(r) for r in d["rules"]]
                 else:
-                    meta = {"foo": d["foo"]} if d.get("foo") else {}
+                    meta = {"foo": d["foo"]} if d.get("foo") is not None else {}
                     self.inputs.add(name=n, time=self.time, grid=fm.NoGrid(), units=d["units"], **meta)
             for n, d in self.outs.items():
                 if "rules" in d:
                     self.outputs.add(name=n)
                     orl[n] = [rule(r) for r in d["rules"]]
                 else:
-                    meta = {"foo": d["foo"]} if d.get("foo") else {}
+                    meta = {"foo": d["foo"]} if d.get("foo") is not None else {}
                     self.outputs.add(name=n, time=self.time, grid=fm.NoGrid(), units=d["units"], **meta)
             self.create_connector(pull_data=list(self.ins), in_info_rules=ir, out_info_rules=orl)
 
@@ -533,7 +533,7 @@ def check_rules(case, ctx):
              ("P.a", P.outputs["a"].info, pa), ("P.b", P.outputs["b"].info, pb),
              ("X.connector.in_infos[A]", X.connector.in_infos["A"], eA), ("X.connector.in_infos[B]", X.connector.in_infos["B"], eB)]
     for name, got, exp in slots:
-        if got.units != U(exp["units"]) or got.meta.get("foo") != exp["foo"]:
+        if got.units != U(exp["units"]) or got.meta.get("foo") != exp["foo"] or type(got.meta.get("foo")) is not type(exp["foo"]):
             ctx.violation("rule-derived-metadata", f"{name}: units {got.units!s} foo {got.meta.get('foo')!r}, expected {exp['units']!r} / {exp['foo']!r}" + info)
             return
     pulls = [("X.A", X.connector.in_data["A"], 1500.0, pa["units"], eA["units"]), ("X.B", X.connector.in_data["B"], 7.0, pb["units"], eB["units"]),
@@ -549,7 +549,7 @@ def check_rules(case, ctx):
 @st.composite
 def rules_case(draw):
     un = st.sampled_from(LEN_UNITS)
-    foo = st.sampled_from([None, "x", "y"])
+    foo = st.sampled_from([None, "x", "y", 0, 0.0, False, ""])  # also falsy values: they are values, not "unset"
     # the extra key is set on producers and by value rules only (equal keys with different values on both ends of a
     # link are a metadata conflict, which is C07's subject)
     slot = lambda: {"units": draw(st.one_of(st.none(), un)), "foo": None}  # noqa: E731
@@ -557,7 +557,7 @@ def rules_case(draw):
     p = {"a": {"units": draw(un), "foo": draw(foo) if mode == "out" else None}, "b": {"units": draw(un), "foo": draw(foo)}}
     tail = draw(st.lists(st.one_of(
         st.tuples(st.just("val"), st.just("units"), un).map(list),
-        st.tuples(st.just("val"), st.just("foo"), st.sampled_from(["x", "z"])).map(list),
+        st.tuples(st.just("val"), st.just("foo"), st.sampled_from(["x", "z", 0, False])).map(list),
         st.just(["in" if mode == "out" else "out", "B" if mode == "out" else "o", ["units"]]),
     ), max_size=2))
     if mode == "out":
